@@ -153,7 +153,10 @@ class MultiFunction(Generic[T, P]):
         """Return the method which would handle this dispatch key or None if no method
         defined for this key and no default."""
         if self._cached_hierarchy != self._hierarchy.deref():
-            self._reset_cache()
+            # Under the lock, so that a search still running against the old hierarchy
+            # cannot store its answer into the cache after it was reset for the new one
+            with self._lock:
+                self._reset_cache()
 
         cached_val = self._cache.val_at(key)
         if cached_val is not None:
